@@ -285,7 +285,9 @@ func ruleP02Diff(p *Prog, r *Report) {
 				n1, r1, _, _ := methodCall(c.Common().Args[0])
 				n2, r2, _, _ := methodCall(c.Common().Args[1])
 				if n1 == "InMinutes" && n2 == "InMinutes" && r1 != nil && r2 != nil {
-					recvIsSelf := func(v ssa.Value) bool { return leafKey(v) == leafKey(plus.Params[0]) || sameValue(v, plus.Params[0]) || isLoadOfParamCopy(v, plus.Params[0]) }
+					recvIsSelf := func(v ssa.Value) bool {
+						return leafKey(v) == leafKey(plus.Params[0]) || sameValue(v, plus.Params[0]) || isLoadOfParamCopy(v, plus.Params[0])
+					}
 					if (recvIsSelf(r1) && strip(r2) == ssa.Value(plus.Params[1])) || (recvIsSelf(r2) && strip(r1) == ssa.Value(plus.Params[1])) {
 						// and the sum is what is returned
 						sum := resultOf(c, 0)
